@@ -221,6 +221,12 @@ func (p *Program) Grammar() *grammar {
 		uses := builderParam(info, fd) != nil
 		if !uses {
 			ast.Inspect(fd.Body, func(n ast.Node) bool {
+				// a builder declared by value: var sb strings.Builder / sb := strings.Builder{}
+				if id, ok := n.(*ast.Ident); ok {
+					if v, isVar := info.Defs[id].(*types.Var); isVar && !v.IsField() && TypeStr(v.Type()) == "strings.Builder" {
+						uses = true
+					}
+				}
 				if call, ok := n.(*ast.CallExpr); ok && IsBuiltinCall(info, call, "new") && len(call.Args) == 1 && TypeStr(info.TypeOf(call.Args[0])) == "strings.Builder" {
 					uses = true
 				}
@@ -542,6 +548,17 @@ func (c *grammarClient) ScopeEnd(e *Engine, st *State, n ast.Node) *State {
 }
 
 func (c *grammarClient) PostAssign(e *Engine, st *State, lhs, rhs []ast.Expr, _ ast.Stmt) *State {
+	// var sb strings.Builder: a fresh builder held by value
+	if rhs == nil {
+		for _, l := range lhs {
+			if isBuilder(e.Info, l) {
+				if k := e.CanonSt(st, l); k.OK {
+					st = st.WithExt("last:"+k.Key, "-1").WithExt("depth:"+k.Key, "0,0,0")
+				}
+			}
+		}
+		return st
+	}
 	changed := false
 	// the node parameter is replaced: what was known about its table entry no longer applies
 	for _, l := range lhs {
@@ -575,6 +592,11 @@ func (c *grammarClient) PostAssign(e *Engine, st *State, lhs, rhs []ast.Expr, _ 
 			}
 		}
 		// a fresh builder
+		if lit, ok := ast.Unparen(rhs[0]).(*ast.CompositeLit); ok && len(lit.Elts) == 0 && isBuilder(e.Info, lhs[0]) {
+			if k := e.CanonSt(st, lhs[0]); k.OK {
+				return st.WithExt("last:"+k.Key, "-1").WithExt("depth:"+k.Key, "0,0,0")
+			}
+		}
 		if call, ok := ast.Unparen(rhs[0]).(*ast.CallExpr); ok && IsBuiltinCall(e.Info, call, "new") && isBuilder(e.Info, lhs[0]) {
 			if k := e.CanonSt(st, lhs[0]); k.OK {
 				return st.WithExt("last:"+k.Key, "-1").WithExt("depth:"+k.Key, "0,0,0")
@@ -629,6 +651,10 @@ func (c *grammarClient) PreCall(e *Engine, st *State, call *ast.CallExpr, callee
 	b := emissionBuilder(info, call)
 	if b == nil {
 		return nil
+	}
+	// a builder held by value is passed on as &b
+	if u, ok := ast.Unparen(b).(*ast.UnaryExpr); ok && u.Op == token.AND {
+		b = u.X
 	}
 	bkI := e.CanonSt(st, b)
 	if !bkI.OK {
@@ -910,6 +936,13 @@ func (c *grammarClient) expandCall() []string {
 // rawOrigin classifies a non-constant value written into the SQL text.
 func (c *grammarClient) rawOrigin(e *Engine, st *State, ev *emitEvent) string {
 	info := e.Info
+	// the value being quoted, written through a strings.Replacer whose table is a constant (inside a sanitizer only)
+	if strings.HasPrefix(ev.Verb, "call of (*strings.Replacer).WriteString") {
+		if pairs, ok := c.replacerPairs(e, ev.Call); ok && (declName(c.fd) == "quoteIdentifier" || declName(c.fd) == "quoteSQLString") {
+			return "replacer:" + pairs
+		}
+		return "tainted: written through a replacer whose table is not constant (or outside the sanitizers)"
+	}
 	if ev.Verb != "" {
 		switch {
 		case ev.Verb == "%T":
@@ -927,6 +960,12 @@ func (c *grammarClient) rawOrigin(e *Engine, st *State, ev *emitEvent) string {
 		return "tainted: " + ev.Verb
 	}
 	arg := e.ResolveExpr(ev.Arg)
+	// the generated name of a token kind: x.Kind.String()
+	if call, ok := arg.(*ast.CallExpr); ok && len(call.Args) == 0 {
+		if sel, ok := ast.Unparen(call.Fun).(*ast.SelectorExpr); ok && sel.Sel.Name == "String" && TypeStr(info.TypeOf(sel.X)) == "parser.TokenKind" {
+			return "verb:%s of a TokenKind (generated constant names)"
+		}
+	}
 	// single byte copied by a sanitizer loop
 	if b, ok := info.TypeOf(arg).Underlying().(*types.Basic); ok && b.Kind() == types.Byte || ok && b.Kind() == types.Uint8 {
 		return "byte of the value being quoted"
@@ -993,6 +1032,41 @@ func (c *grammarClient) rawOrigin(e *Engine, st *State, ev *emitEvent) string {
 		}
 	}
 	return "tainted: " + exprStr(arg)
+}
+
+// replacerPairs: the constant old/new table of the strings.Replacer a WriteString call goes through
+// (a package-level variable initialised with strings.NewReplacer(...constants...)), as "old\x00new\x00...".
+func (c *grammarClient) replacerPairs(e *Engine, call *ast.CallExpr) (string, bool) {
+	sel, ok := ast.Unparen(call.Fun).(*ast.SelectorExpr)
+	if !ok {
+		return "", false
+	}
+	var init ast.Expr
+	if v, ok := objOf(e.Info, sel.X).(*types.Var); ok && v.Pkg() != nil && v.Parent() == v.Pkg().Scope() && c.g.p.globalNeverWritten(v) {
+		for _, pkg := range c.g.p.All {
+			if pkg.Types == v.Pkg() {
+				init = c.g.p.PkgVarValue(pkg, v.Name())
+			}
+		}
+	} else {
+		init = c.g.p.DefOf(sel.X)
+	}
+	nc, ok := ast.Unparen(init).(*ast.CallExpr)
+	if !ok {
+		return "", false
+	}
+	if f := Callee(e.Info, nc); f == nil || f.FullName() != "strings.NewReplacer" || len(nc.Args)%2 != 0 {
+		return "", false
+	}
+	var parts []string
+	for _, a := range nc.Args {
+		s, ok := constString(e.Info, a)
+		if !ok {
+			return "", false
+		}
+		parts = append(parts, s)
+	}
+	return strings.Join(parts, "\x00"), true
 }
 
 // xParamOf returns, for an emitting function, its Expr-typed parameter (nil if none).
